@@ -27,8 +27,9 @@ theorem countBond_some (o : Op) (s : Slots) (b : Nat) :
   unfold countBond delta
   by_cases h : o.bond = b
   · subst h; simp [List.filter]; omega
-  · have h' : ¬ b = o.bond := fun e => h e.symm
-    simp [List.filter, h, h']
+  · have hb : (o.bond == b) = false := by simpa using h
+    have h' : ¬ b = o.bond := fun e => h e.symm
+    simp [List.filter, hb, h']
 
 /-! ### multiplicativity of the count formula -/
 
@@ -106,7 +107,7 @@ theorem sumCount_delta (b st : Nat) : ∀ n,
     by_cases h : n + st = b
     · have h1 : ¬ (st ≤ b ∧ b < st + n) := by omega
       have h2 : st ≤ b ∧ b < st + (n + 1) := by omega
-      simp [delta, h, h1, h2]
+      rw [if_neg h1, if_pos h2]; simp [delta, h]
     · have hd : delta b (n + st) = 0 := by simp [delta, h]
       rw [hd]
       by_cases h1 : st ≤ b ∧ b < st + n
@@ -142,6 +143,217 @@ theorem relWIsingCounts_delta (self other : IsingH) (b : Nat)
           simp only [he, if_true] at hb; omega
         simp [h1, h2, a0, a1, a2, he]
       · simp only [he, if_false] at hb; omega
+
+/-! ### matrix-element ratios of one legal operator -/
+
+theorem twoSite_ratio (i0 i1 o0 o1 : Bool) (Js Jo : Rat) (hs : sgn Jo = sgn Js)
+    (hw : 0 < twoSite i0 i1 o0 o1 Js) :
+    twoSite i0 i1 o0 o1 Jo / twoSite i0 i1 o0 o1 Js = Jo / Js := by
+  unfold twoSite absR sgn at *
+  split_ifs at hs hw ⊢ <;>
+    first
+    | (exfalso; linarith)
+    | (exfalso; omega)
+    | (rw [div_eq_div_iff (by linarith) (by linarith)]; ring)
+
+theorem longitudinal_ratio (i o : Bool) (hs_ ho_ : Rat) (hs : sgn ho_ = sgn hs_)
+    (hw : 0 < longitudinalW i o hs_) :
+    longitudinalW i o ho_ / longitudinalW i o hs_ = ho_ / hs_ := by
+  unfold longitudinalW absR sgn at *
+  split_ifs at hs hw ⊢ <;>
+    first
+    | (exfalso; linarith)
+    | (exfalso; omega)
+    | (rw [div_eq_div_iff (by linarith) (by linarith)]; ring)
+
+/-- what `can_swap_managers` establishes for a pair of well-formed Hamiltonians -/
+structure Swappable (x y : IsingH) : Prop where
+  len : y.edges.length = x.edges.length
+  nvars : y.nvars = x.nvars
+  sgnJ : ∀ b, b < x.edges.length → sgn (y.J b) = sgn (x.J b)
+  sgnh : sgn y.h = sgn x.h
+
+theorem wOp_ratio {self other : IsingH} (hs : Swappable self other) (o : Op)
+    (hb : o.bond < self.numBonds) (hw : 0 < self.wOp o) :
+    other.wOp o / self.wOp o = bondRho self other o.bond := by
+  unfold IsingH.wOp IsingH.w bondRho IsingH.numBonds IsingH.nedges at *
+  rw [hs.len, hs.nvars]
+  by_cases h1 : o.bond < self.edges.length
+  · simp only [h1, if_true] at hw ⊢
+    exact twoSite_ratio _ _ _ _ _ _ (hs.sgnJ _ h1) hw
+  · by_cases h2 : o.bond < self.edges.length + self.nvars
+    · simp only [h1, h2, if_true, if_false] at hw ⊢
+    · by_cases he : absR self.h > eps
+      · have h3 : o.bond < self.edges.length + 2 * self.nvars := by
+          simp only [he, if_true] at hb; omega
+        simp only [h1, h2, h3, if_true, if_false] at hw ⊢
+        exact longitudinal_ratio _ _ _ _ hs.sgnh hw
+      · simp only [he, if_false] at hb; omega
+
+/-! ### the count formula equals the product over the string -/
+
+theorem relativeWeightIsing_eq_opsProd {self other : IsingH} (hs : Swappable self other) :
+    ∀ (s : Slots), LegalIsing self s →
+      relativeWeightIsing self other s = opsProd (fun o => other.wOp o / self.wOp o) s
+  | [], _ => by
+    unfold relativeWeightIsing
+    have : countBond ([] : Slots) = fun _ => 0 := by funext b; rfl
+    rw [this, relWIsingCounts_zero]; rfl
+  | none :: s, hl => by
+    have hl' : LegalIsing self s := fun o ho => hl o (List.mem_cons_of_mem _ ho)
+    have ih := relativeWeightIsing_eq_opsProd hs s hl'
+    unfold relativeWeightIsing at *
+    have : countBond (none :: s) = countBond s := by funext b; exact countBond_none s b
+    rw [this, ih]; rfl
+  | some o :: s, hl => by
+    have hl' : LegalIsing self s := fun o ho => hl o (List.mem_cons_of_mem _ ho)
+    have ih := relativeWeightIsing_eq_opsProd hs s hl'
+    have ho := hl o (List.mem_cons_self ..)
+    unfold relativeWeightIsing at *
+    have : countBond (some o :: s) = fun b => delta o.bond b + countBond s b := by
+      funext b; exact countBond_some o s b
+    rw [this, relWIsingCounts_add, ih, relWIsingCounts_delta self other o.bond hs.len ho.1,
+      ← wOp_ratio hs o ho.1 ho.2]
+    rfl
+
+/-! ### from `can_swap_managers` to `Swappable` -/
+
+/-- the constructor derives the number of variables from the edge list -/
+def IsingH.WF (H : IsingH) : Prop := H.nvars = IsingH.nvarsOf H.edges
+
+theorem canSwapEdges_spec : ∀ (a b : List (List Nat × Rat)), a.length = b.length →
+    canSwapEdges a b = true →
+    a.map (·.1) = b.map (·.1) ∧
+      ∀ i, i < a.length → sgn (a.getD i ([], 0)).2 = sgn (b.getD i ([], 0)).2
+  | [], [], _, _ => by simp
+  | [], _ :: _, h, _ => by simp at h
+  | _ :: _, [], h, _ => by simp at h
+  | (ea, ja) :: a, (eb, jb) :: b, h, hc => by
+    simp only [canSwapEdges, Bool.and_eq_true, decide_eq_true_eq] at hc
+    obtain ⟨⟨he, hj⟩, hr⟩ := hc
+    have ih := canSwapEdges_spec a b (by simpa using h) hr
+    refine ⟨by simp [he, ih.1], ?_⟩
+    intro i hi
+    cases i with
+    | zero => simpa using hj
+    | succ i =>
+      have : i < a.length := by simpa using hi
+      simpa using ih.2 i this
+
+theorem nvarsOf_congr (a b : List (List Nat × Rat)) (h : a.map (·.1) = b.map (·.1)) :
+    IsingH.nvarsOf a = IsingH.nvarsOf b := by
+  have key : ∀ (l : List (List Nat × Rat)) (m : Nat),
+      l.foldl (fun m e => e.1.foldl max m) m = (l.map (·.1)).foldl (fun m vs => vs.foldl max m) m := by
+    intro l
+    induction l with
+    | nil => intro m; rfl
+    | cons e l ih => intro m; simp only [List.foldl_cons, List.map_cons]; exact ih _
+  unfold IsingH.nvarsOf
+  rw [key a, key b, h]
+
+theorem swappable_of_canSwap {x y : IsingH} (hx : x.WF) (hy : y.WF)
+    (hc : canSwapIsing x y = true) : Swappable x y := by
+  simp only [canSwapIsing, Bool.and_eq_true, decide_eq_true_eq] at hc
+  obtain ⟨⟨hlen, he⟩, hh⟩ := hc
+  have sp := canSwapEdges_spec _ _ hlen he
+  refine ⟨hlen.symm, ?_, ?_, hh.symm⟩
+  · unfold IsingH.WF at hx hy; rw [hx, hy]; exact (nvarsOf_congr _ _ sp.1).symm
+  · intro b hb; exact (sp.2 b hb).symm
+
+theorem Swappable.symm {x y : IsingH} (h : Swappable x y) : Swappable y x :=
+  ⟨h.len.symm, h.nvars.symm, fun b hb => (h.sgnJ b (h.len ▸ hb)).symm, h.sgnh.symm⟩
+
+theorem Swappable.refl (x : IsingH) : Swappable x x := ⟨rfl, rfl, fun _ _ => rfl, rfl⟩
+
+/-- `ham_eq` (on well-formed Hamiltonians) means the two Hamiltonians are the same record -/
+theorem eq_of_hamEq {x y : IsingH} (hx : x.WF) (hy : y.WF) (h : hamEqIsing x y = true) : x = y := by
+  simp only [hamEqIsing, Bool.and_eq_true, decide_eq_true_eq] at h
+  obtain ⟨⟨he, hg⟩, hh⟩ := h
+  unfold IsingH.WF at hx hy
+  cases x; cases y; simp_all
+
+/-! ### products over the string -/
+
+theorem opsProd_div (f g : Op → Rat) : ∀ s : Slots,
+    opsProd (fun o => f o / g o) s = opsProd f s / opsProd g s
+  | [] => by simp [opsProd]
+  | none :: s => by simp only [opsProd]; exact opsProd_div f g s
+  | some o :: s => by simp only [opsProd]; rw [opsProd_div f g s, div_mul_div_comm]
+
+theorem opsProd_pos {nb : Nat} {w : Op → Rat} : ∀ {s : Slots}, LegalOps nb w s → 0 < opsProd w s
+  | [], _ => by simp [opsProd]
+  | none :: s, h => by
+    simp only [opsProd]; exact opsProd_pos (s := s) (fun o ho => h o (List.mem_cons_of_mem _ ho))
+  | some o :: s, h => by
+    simp only [opsProd]
+    exact mul_pos (h o (List.mem_cons_self ..)).2
+      (opsProd_pos (s := s) (fun o ho => h o (List.mem_cons_of_mem _ ho)))
+
+theorem opsProd_self_ratio {nb : Nat} {w : Op → Rat} {s : Slots} (h : LegalOps nb w s) :
+    opsProd (fun o => w o / w o) s = 1 := by
+  rw [opsProd_div]; exact div_self (ne_of_gt (opsProd_pos h))
+
+/-! ### `powi` -/
+
+theorem powi_eq_zpow (x : Rat) (e : Int) : powi x e = x ^ e := by
+  unfold powi
+  cases e with
+  | ofNat n => simp
+  | negSucc n =>
+    have h1 : ¬ (0 : Int) ≤ Int.negSucc n := by omega
+    have h2 : (-(Int.negSucc n)).toNat = n + 1 := by omega
+    rw [if_neg h1, h2, zpow_negSucc]
+
+theorem powi_sub {x : Rat} (hx : x ≠ 0) (m n : Nat) :
+    powi x ((m : Int) - (n : Int)) = x ^ m / x ^ n := by
+  rw [powi_eq_zpow, zpow_sub₀ hx, zpow_natCast, zpow_natCast]
+
+theorem fact_pos : ∀ n, 0 < fact n
+  | 0 => by simp [fact]
+  | n + 1 => by simp only [fact]; exact Nat.mul_pos (by omega) (fact_pos n)
+
+/-! ### the swap probability is the Metropolis ratio -/
+
+theorem pSwap_eval_eq_metropolisRatio (a b : Replica IsingH)
+    (hL : a.cutoff = b.cutoff) (hβa : 0 < a.beta) (hβb : 0 < b.beta)
+    (hla : LegalIsing a.ham a.cfg.slots) (hlb : LegalIsing b.ham b.cfg.slots)
+    (hs : Swappable a.ham b.ham) :
+    pSwap isingIface a b true = metropolisRatio a b := by
+  unfold pSwap relH metropolisRatio WIsing configWeight isingIface
+  simp only [if_true]
+  rw [relativeWeightIsing_eq_opsProd hs _ hla, relativeWeightIsing_eq_opsProd hs.symm _ hlb,
+    opsProd_div, opsProd_div, hL]
+  have hx : a.beta / b.beta ≠ 0 := div_ne_zero (ne_of_gt hβa) (ne_of_gt hβb)
+  rw [powi_sub hx, div_pow, div_pow]
+  have hA := ne_of_gt (opsProd_pos hla)
+  have hB := ne_of_gt (opsProd_pos hlb)
+  have hβa' := ne_of_gt hβa
+  have hβb' := ne_of_gt hβb
+  have f1 : ((fact (b.cutoff - countOps a.cfg.slots) : Nat) : Rat) ≠ 0 :=
+    Nat.cast_ne_zero.mpr (Nat.pos_iff_ne_zero.mp (fact_pos _))
+  have f2 : ((fact (b.cutoff - countOps b.cfg.slots) : Nat) : Rat) ≠ 0 :=
+    Nat.cast_ne_zero.mpr (Nat.pos_iff_ne_zero.mp (fact_pos _))
+  have f3 : ((fact b.cutoff : Nat) : Rat) ≠ 0 :=
+    Nat.cast_ne_zero.mpr (Nat.pos_iff_ne_zero.mp (fact_pos _))
+  field_simp
+
+theorem relH_hamEq_one (a b : Replica IsingH) (h : a.ham = b.ham)
+    (hla : LegalIsing a.ham a.cfg.slots) (hlb : LegalIsing b.ham b.cfg.slots) :
+    relH isingIface a b true = 1 := by
+  unfold relH isingIface
+  simp only [if_true]
+  rw [← h] at hlb ⊢
+  rw [relativeWeightIsing_eq_opsProd (Swappable.refl _) _ hla,
+    relativeWeightIsing_eq_opsProd (Swappable.refl _) _ hlb,
+    opsProd_self_ratio hla, opsProd_self_ratio hlb]
+  norm_num
+
+theorem pSwap_skip_eq_eval (a b : Replica IsingH) (h : a.ham = b.ham)
+    (hla : LegalIsing a.ham a.cfg.slots) (hlb : LegalIsing b.ham b.cfg.slots) :
+    pSwap isingIface a b false = pSwap isingIface a b true := by
+  unfold pSwap
+  rw [relH_hamEq_one a b h hla hlb]
+  simp [relH]
 
 end Tempering
 end Qmc
